@@ -126,8 +126,17 @@ func c12RandomTemplate(r *rand.Rand, d, maxD int) *canon.Node {
 		return canon.Ma(m)
 	case 3:
 		if len(elts) > 0 && r.Intn(3) == 0 {
-			// literal symbol 'unquote' as a vector's first element: must stay literal
-			return canon.Ve(append([]*canon.Node{s("unquote")}, elts...)...)
+			// the symbols unquote / splice-unquote as plain data at the head of a vector (also as an element of an
+			// enclosing list or vector): a vector is never an unquote form
+			inner := canon.Ve(append([]*canon.Node{s(gen.Pick(r, []string{"unquote", "splice-unquote"}))}, elts...)...)
+			switch r.Intn(3) {
+			case 0:
+				return inner
+			case 1:
+				return canon.Li(canon.In(1), inner, canon.In(2))
+			default:
+				return canon.Ve(inner, canon.Li(s("unquote"), s("x")))
+			}
 		}
 		return canon.Li(elts...)
 	default:
